@@ -165,6 +165,14 @@ def gen_sm_segments(rng):
             if nc >= 6 and rng.random() < 0.7:
                 p[2][:6] = ["\n     dance-single", "\n     " + rng.choice(["desc", "K\\O mix", "a\\"]), "\n     Hard", "\n     9", "\n     0,0,0", "\n0000\n0001\n,\n1000\n0000\n"]
             segs.append(p)
+            if nc >= 6 and rng.random() < 0.35:
+                # a twin chart: the same six fields, other extra components; long note data now and then
+                if rng.random() < 0.5:
+                    p[2][5] = "\n" + ("0000\n0001\n0010\n0100\n,\n" * 60) + "1000\n"
+                twin = ["param", key, list(p[2][:6]) + [rcomp(rng, multiline=False) for _ in range(rng.choice([0, 1, 2]))], ";"]
+                if twin[2][6:] == p[2][6:]:
+                    twin[2].append("twin")
+                segs.append(twin)
         else:
             segs.append(rparam(rng, key))
     return segs
